@@ -1051,27 +1051,89 @@ func (in *Interp) assignedIn(n ast.Node) (ints map[types.Object]bool, others map
 			}
 		}
 	}
-	ast.Inspect(n, func(nd ast.Node) bool {
-		switch x := nd.(type) {
-		case *ast.FuncLit:
-			return false
-		case *ast.AssignStmt:
-			for _, l := range x.Lhs {
-				mark(l)
+	seenLit := map[*ast.FuncLit]bool{}
+	var walk func(n ast.Node)
+	walk = func(n ast.Node) {
+		ast.Inspect(n, func(nd ast.Node) bool {
+			switch x := nd.(type) {
+			case *ast.FuncLit:
+				return false
+			case *ast.AssignStmt:
+				for _, l := range x.Lhs {
+					mark(l)
+				}
+			case *ast.IncDecStmt:
+				mark(x.X)
+			case *ast.RangeStmt:
+				if x.Key != nil {
+					mark(x.Key)
+				}
+				if x.Value != nil {
+					mark(x.Value)
+				}
+			case *ast.UnaryExpr:
+				if x.Op == token.AND {
+					mark(x.X) // &v handed to a helper: it may assign v
+				}
+			case *ast.CallExpr:
+				// a call of a local closure assigns what the closure's body assigns
+				if id, ok := unparen(x.Fun).(*ast.Ident); ok {
+					if lit := in.closureLit(in.obj(id)); lit != nil && !seenLit[lit] {
+						seenLit[lit] = true
+						walk(lit.Body)
+					}
+				}
 			}
-		case *ast.IncDecStmt:
-			mark(x.X)
-		case *ast.RangeStmt:
-			if x.Key != nil {
-				mark(x.Key)
+			return true
+		})
+	}
+	walk(n)
+	return
+}
+
+// closureLit: the function literal a local variable of the current function is defined as, if it is
+// defined exactly once by `v := func…` or `var v = func…`.
+func (in *Interp) closureLit(o types.Object) *ast.FuncLit {
+	if o == nil || in.fi == nil || in.fi.Decl == nil || in.fi.Decl.Body == nil {
+		return nil
+	}
+	if in.closLits == nil {
+		in.closLits = map[types.Object]*ast.FuncLit{}
+		count := map[types.Object]int{}
+		ast.Inspect(in.fi.Decl.Body, func(nd ast.Node) bool {
+			switch x := nd.(type) {
+			case *ast.AssignStmt:
+				if len(x.Lhs) == len(x.Rhs) {
+					for i, l := range x.Lhs {
+						if id, ok := unparen(l).(*ast.Ident); ok {
+							if lo := in.info.ObjectOf(id); lo != nil {
+								count[lo]++
+								if fl, ok := unparen(x.Rhs[i]).(*ast.FuncLit); ok {
+									in.closLits[lo] = fl
+								}
+							}
+						}
+					}
+				}
+			case *ast.ValueSpec:
+				for i, nm := range x.Names {
+					if lo := in.info.ObjectOf(nm); lo != nil && i < len(x.Values) {
+						count[lo]++
+						if fl, ok := unparen(x.Values[i]).(*ast.FuncLit); ok {
+							in.closLits[lo] = fl
+						}
+					}
+				}
 			}
-			if x.Value != nil {
-				mark(x.Value)
+			return true
+		})
+		for lo, c := range count {
+			if c != 1 {
+				delete(in.closLits, lo)
 			}
 		}
-		return true
-	})
-	return
+	}
+	return in.closLits[o]
 }
 
 // fieldsAssignedIn lists receiver field selector expressions assigned in n.
